@@ -896,4 +896,154 @@ theorem expandMacros_defs (p : Bool) (c x : Circuit) (h : expandMacros p c = .ok
 
 end Defs
 
+
+/-! ### Branch order, on meaning trees -/
+
+/-- `m'` is `m` with the branches of any number of parallel blocks (at any depth) permuted -/
+inductive SemPerm : Sem → Sem → Prop
+  | refl (m : Sem) : SemPerm m m
+  | here {sub : Bool} {it : Int} {body body' : List Sem} : body.Perm body' →
+      SemPerm (.blk true sub it body) (.blk true sub it body')
+  | inBlk {par sub : Bool} {it : Int} {pre post : List Sem} {x x' : Sem} : SemPerm x x' →
+      SemPerm (.blk par sub it (pre ++ x :: post)) (.blk par sub it (pre ++ x' :: post))
+  | inLoop {n : Int} {b b' : Sem} : SemPerm b b' → SemPerm (.loop n b) (.loop n b')
+  | trans {a b c : Sem} : SemPerm a b → SemPerm b c → SemPerm a c
+
+section Order
+variable (defs : List GateDef) (allQ : List FQ)
+
+theorem mem_semQubitsList_iff (q : FQ) : ∀ (l : List Sem), q ∈ semQubitsList defs allQ l ↔ ∃ x ∈ l, q ∈ semQubits defs allQ x
+  | [] => by simp [semQubitsList]
+  | x :: r => by simp [semQubitsList, mem_semQubitsList_iff q r]
+
+theorem semQubits_blk_iff (par sub : Bool) (it : Int) (body : List Sem) (q : FQ) :
+    q ∈ semQubits defs allQ (.blk par sub it body) ↔ ∃ x ∈ body, q ∈ semQubits defs allQ x := by
+  simp only [semQubits, mem_semQubitsList_iff]
+
+/-- the branches `a`, `b` share no qubit -/
+def SemApart (a b : Sem) : Prop := ¬ ∃ q, q ∈ semQubits defs allQ a ∧ q ∈ semQubits defs allQ b
+
+theorem SemApart.symm {a b : Sem} (h : SemApart defs allQ a b) : SemApart defs allQ b a :=
+  fun ⟨q, h1, h2⟩ => h ⟨q, h2, h1⟩
+
+theorem semPar_blk_iff (par sub : Bool) (it : Int) (body : List Sem) :
+    SemPar defs allQ (.blk par sub it body) ↔
+      (∃ x ∈ body, SemPar defs allQ x) ∨ (par = true ∧ ¬ body.Pairwise (SemApart defs allQ)) := by
+  constructor
+  · intro h
+    cases h with
+    | here hjk h1 h2 a1 a2 =>
+      right
+      refine ⟨rfl, fun hp => ?_⟩
+      exact (pairwise_iff_getElem? _ _).1 hp _ _ _ _ hjk h1 h2 ⟨_, a1, a2⟩
+    | blk hs hc => exact Or.inl ⟨_, hs, hc⟩
+  · rintro (⟨s, hs, hc⟩ | ⟨hp, hn⟩)
+    · exact SemPar.blk hs hc
+    · subst hp
+      apply Classical.byContradiction
+      intro hno
+      apply hn
+      rw [pairwise_iff_getElem?]
+      intro j k a b hjk ha hb ⟨q, h1, h2⟩
+      exact hno (SemPar.here hjk ha hb h1 h2)
+
+theorem semPar_loop_iff (n : Int) (b : Sem) : SemPar defs allQ (.loop n b) ↔ SemPar defs allQ b := by
+  constructor
+  · intro h; cases h with | loop hc => exact hc
+  · exact SemPar.loop
+
+theorem semQubits_perm {m m' : Sem} (h : SemPerm m m') : ∀ q, q ∈ semQubits defs allQ m ↔ q ∈ semQubits defs allQ m' := by
+  induction h with
+  | refl s => intros; rfl
+  | here hp =>
+    intro q
+    simp only [semQubits_blk_iff]
+    exact ⟨fun ⟨s, hs, ha⟩ => ⟨s, hp.mem_iff.1 hs, ha⟩, fun ⟨s, hs, ha⟩ => ⟨s, hp.mem_iff.2 hs, ha⟩⟩
+  | inBlk _ ih =>
+    intro q
+    simp only [semQubits_blk_iff, List.mem_append, List.mem_cons]
+    constructor
+    · rintro ⟨x, hx | rfl | hx, ha⟩
+      · exact ⟨x, Or.inl hx, ha⟩
+      · exact ⟨_, Or.inr (Or.inl rfl), (ih q).1 ha⟩
+      · exact ⟨x, Or.inr (Or.inr hx), ha⟩
+    · rintro ⟨x, hx | rfl | hx, ha⟩
+      · exact ⟨x, Or.inl hx, ha⟩
+      · exact ⟨_, Or.inr (Or.inl rfl), (ih q).2 ha⟩
+      · exact ⟨x, Or.inr (Or.inr hx), ha⟩
+  | inLoop _ ih => intro q; simp only [semQubits]; exact ih q
+  | trans _ _ ih1 ih2 => intro q; exact (ih1 q).trans (ih2 q)
+
+/-- **`SemPar` does not depend on the order in which the branches of parallel blocks are written** -/
+theorem semPar_perm {m m' : Sem} (h : SemPerm m m') : SemPar defs allQ m ↔ SemPar defs allQ m' := by
+  induction h with
+  | refl s => rfl
+  | here hp =>
+    simp only [semPar_blk_iff]
+    rw [hp.pairwise_iff (fun h => SemApart.symm defs allQ h)]
+    constructor
+    · rintro (⟨s, hs, hc⟩ | h)
+      · exact Or.inl ⟨s, hp.mem_iff.1 hs, hc⟩
+      · exact Or.inr h
+    · rintro (⟨s, hs, hc⟩ | h)
+      · exact Or.inl ⟨s, hp.mem_iff.2 hs, hc⟩
+      · exact Or.inr h
+  | @inBlk par sub it pre post s s' hss ih =>
+    have hA : ∀ x, SemApart defs allQ s x ↔ SemApart defs allQ s' x := by
+      intro x; simp only [SemApart, semQubits_perm defs allQ hss]
+    have hB : ∀ x, SemApart defs allQ x s ↔ SemApart defs allQ x s' := by
+      intro x; simp only [SemApart, semQubits_perm defs allQ hss]
+    simp only [semPar_blk_iff, List.pairwise_append, List.pairwise_cons, List.mem_append, List.mem_cons,
+      forall_eq_or_imp, hA, hB]
+    constructor
+    · rintro (⟨x, hx | rfl | hx, hc⟩ | h)
+      · exact Or.inl ⟨x, Or.inl hx, hc⟩
+      · exact Or.inl ⟨_, Or.inr (Or.inl rfl), ih.1 hc⟩
+      · exact Or.inl ⟨x, Or.inr (Or.inr hx), hc⟩
+      · exact Or.inr h
+    · rintro (⟨x, hx | rfl | hx, hc⟩ | h)
+      · exact Or.inl ⟨x, Or.inl hx, hc⟩
+      · exact Or.inl ⟨_, Or.inr (Or.inl rfl), ih.2 hc⟩
+      · exact Or.inl ⟨x, Or.inr (Or.inr hx), hc⟩
+      · exact Or.inr h
+  | inLoop _ ih => simp only [semPar_loop_iff]; exact ih
+  | trans _ _ ih1 ih2 => exact ih1.trans ih2
+
+theorem semRepeat_blk_iff (par sub : Bool) (it : Int) (body : List Sem) :
+    SemRepeat defs (.blk par sub it body) ↔ ∃ x ∈ body, SemRepeat defs x := by
+  constructor
+  · intro h; cases h with | blk hs hr => exact ⟨_, hs, hr⟩
+  · rintro ⟨s, hs, hr⟩; exact SemRepeat.blk hs hr
+
+theorem semRepeat_loop_iff (n : Int) (b : Sem) : SemRepeat defs (.loop n b) ↔ SemRepeat defs b := by
+  constructor
+  · intro h; cases h with | loop hr => exact hr
+  · exact SemRepeat.loop
+
+theorem semRepeat_perm {m m' : Sem} (h : SemPerm m m') : SemRepeat defs m ↔ SemRepeat defs m' := by
+  induction h with
+  | refl s => rfl
+  | here hp =>
+    simp only [semRepeat_blk_iff]
+    exact ⟨fun ⟨s, hs, ha⟩ => ⟨s, hp.mem_iff.1 hs, ha⟩, fun ⟨s, hs, ha⟩ => ⟨s, hp.mem_iff.2 hs, ha⟩⟩
+  | inBlk _ ih =>
+    simp only [semRepeat_blk_iff, List.mem_append, List.mem_cons]
+    constructor
+    · rintro ⟨x, hx | rfl | hx, ha⟩
+      · exact ⟨x, Or.inl hx, ha⟩
+      · exact ⟨_, Or.inr (Or.inl rfl), ih.1 ha⟩
+      · exact ⟨x, Or.inr (Or.inr hx), ha⟩
+    · rintro ⟨x, hx | rfl | hx, ha⟩
+      · exact ⟨x, Or.inl hx, ha⟩
+      · exact ⟨_, Or.inr (Or.inl rfl), ih.2 ha⟩
+      · exact ⟨x, Or.inr (Or.inr hx), ha⟩
+  | inLoop _ ih => simp only [semRepeat_loop_iff]; exact ih
+  | trans _ _ ih1 ih2 => exact ih1.trans ih2
+
+/-- **`SemConflict` does not depend on the order in which the branches of parallel blocks are written** -/
+theorem semConflict_perm {m m' : Sem} (h : SemPerm m m') : SemConflict defs allQ m ↔ SemConflict defs allQ m' :=
+  or_congr (semPar_perm defs allQ h) (semRepeat_perm defs h)
+
+end Order
+
 end Jaqal.UsedQubits
